@@ -16,7 +16,7 @@
   messages handed to the packetizer, the exception class that ended the loop (if any).
 
   Mirrors the *current* code, including quirks (each marked QUIRK).  Mathlib-free.
-  Structure: `decide` (what the handlers decide, as an `Act`) then `perform` (the effects).
+  Structure: `decideAct` (what the handlers decide, as an `Act`) then `perform` (the effects).
 -/
 import PV.Base.Wire
 import PV.Generated.AuthTables
@@ -462,7 +462,7 @@ def dispatch (sc : SigScheme) (sid : Bytes) (s : St) (p : Nat) (payload : Bytes)
     else (s, .reply [] [msgUnimplemented env.seqno])
 
 /-- what the loop decides to do with one message -/
-def decide (sc : SigScheme) (sid : Bytes) (s : St) (p : Nat) (payload : Bytes) (env : Env) : St × Act :=
+def decideAct (sc : SigScheme) (sid : Bytes) (s : St) (p : Nat) (payload : Bytes) (env : Env) : St × Act :=
   match classify s.gssSub p with
   | .ignore => (s, .nop)
   | .disconnect =>
@@ -482,7 +482,7 @@ def decide (sc : SigScheme) (sid : Bytes) (s : St) (p : Nat) (payload : Bytes) (
 def step (sc : SigScheme) (sid : Bytes) (s : St) (p : Nat) (payload : Bytes) (env : Env) : St × Out :=
   if s.active = false then (s, {})                       -- the loop has ended: nothing is read any more
   else
-    let d := decide sc sid s p payload env
+    let d := decideAct sc sid s p payload env
     perform d.1 env d.2
 
 /-- a history: messages with the environment each one meets -/
